@@ -111,6 +111,7 @@ fn main() {
                 t.reset(sys.reset_event());
                 for _ in 0..len {
                     time_passes(&sys.e, &mut r, 3000);
+                    time_passes_long(&sys.e, &mut r);
                     let kind = *pick(&mut r, &["mint", "mint_royalty", "set_default", "set_token", "set_token", "remove_token"]);
                     let bps = *pick(&mut r, &[0i64, 1, 250, 3333, 9999, 10000, 10000, 10001, 65535]);
                     let who = if r.gen_bool(0.85) { "m" } else { *pick(&mut r, &["a", "b"]) };
